@@ -146,6 +146,11 @@ var c04Alphabet = []lineKind{
 func runC04(c *core.Ctx) {
 	c.SetRule("files: (1) every sequence of <= L lines over a 14-symbol alphabet of line kinds (2 headings, 6 entry layouts, comment, blank, 2 whitespace-only, 2 note forms) x {LF,CRLF} x {final EOL, none}, skipping sequences with an entry/note before the first heading (outside the documented format); (2) random files rendered from abstract books with every layout variant, names of all scripts with inner blanks, '/', punctuation, numbers signed/fractional/exponent, up to 2000 lines and names up to 20 kB; (3) a sample through csv database / csv log / print of the real binary. Oracle: the callback sequence must equal the generating structure (headings, entries, exact names, correctly rounded values via big.Rat, notes). Non-trivial = file with >= 1 entry; distinct = file hash.")
 	c.Assume("names start and end with a letter or digit (leading/trailing quote, dash, colon and blanks are quoting syntax the parser strips by design)")
+	// in the background: the book and the log through a pipe whose writer falls silent for half a minute in the middle
+	if !c.InChild() {
+		waitPaused := pausedPipes(c, map[string]string{"csv database": "book", "csv log": "log"})
+		defer waitPaused()
+	}
 
 	c.RunPart("l3-exhaustive", 30*time.Minute, func(c *core.Ctx) {
 		maxLen := c.N(5, 6)
@@ -506,9 +511,16 @@ func c04RandomBook(r *rand.Rand) gen.Book {
 	var b gen.Book
 	for i := 0; i < nrec; i++ {
 		rec := gen.Recipe{Name: gen.Name(r, no)}
+		if r.Intn(12) == 0 {
+			rec.Name = gen.SpecialName(r)
+		}
 		ne := r.Intn(maxEnts + 1)
 		for j := 0; j < ne; j++ {
-			rec.Ents = append(rec.Ents, gen.Ent{Name: gen.Name(r, no), Val: c04Num(r)})
+			en := gen.Name(r, no)
+			if r.Intn(12) == 0 {
+				en = gen.SpecialName(r)
+			}
+			rec.Ents = append(rec.Ents, gen.Ent{Name: en, Val: c04Num(r)})
 		}
 		if r.Intn(3) == 0 {
 			rec.Notes = gen.RandomNotes(r)
